@@ -351,7 +351,10 @@ def _clone(m, q, args, callee):
     rt = m.rt_type(v)
     if rt in ('Option', 'Result', 'Ordering', 'Duration', 'EnumMap', 'PhantomData', 'Box', None) or str(rt).startswith(('{', '[')):
         return clone_value(m, v)
-    f = m.resolve_mir(rt, 'Clone', 'clone', args, callee)
+    try:
+        f = m.resolve_mir(rt, 'Clone', 'clone', args, callee)
+    except Unsupported as e:
+        raise Unsupported(f'{e.msg} [rt={rt!r} v={v!r}]')
     if f is not None:
         return m.call_fn(f, args)
     return clone_value(m, v)
